@@ -248,8 +248,13 @@ class Program:
                 m1 == m2 for m1, m2 in zip(self_cmd.reg, prog_cmd.reg)
             )
             dagger_eq = getattr(self_cmd.op, "dagger", False) == getattr(prog_cmd.op, "dagger", False)
+            # settings of a measurement that are not parameters
+            settings_eq = all(
+                repr(getattr(self_cmd.op, attr, None)) == repr(getattr(prog_cmd.op, attr, None))
+                for attr in ("select", "dark_counts")
+            )
 
-            if not all((names_eq, param_eq, modes_eq, dagger_eq)):
+            if not all((names_eq, param_eq, modes_eq, dagger_eq, settings_eq)):
                 return False
 
         return True
